@@ -100,6 +100,7 @@ type c14Special struct {
 	Label  string
 	Text   string
 	Plants []string
+	Host   string // when set: the file the instances are planted in (instead of a drawn small host)
 }
 
 var c14Specials = []c14Special{
@@ -132,6 +133,20 @@ var c14Specials = []c14Special{
 			"c14wrap(func(k int) error {\n\treturn c14done(k)\n})",
 			"c14wrap(func(k int) error {\n\treturn c14done(k + 1)\n})",
 		},
+	},
+	{
+		// The import is replaced; whether the old one may go depends on whether
+		// its name is still used as a package, and a local of the same name
+		// (parameter, variable) is not such a use.
+		Label: "replace-import-shadowed",
+		Text:  "@@\nvar x expression\n@@\n-import \"example.com/conversion/to\"\n+import \"example.com/thriftrw/ptr\"\n\n-to.Ptr(x)\n+ptr.Of(x)\n",
+		Plants: []string{
+			"_ = func(to c14dest) string { return to.Name() }",
+			"c14sink(to.Ptr(2))",
+			"{\n\tto := c14dest{}\n\t_ = to.Name()\n}",
+			"c14sink(to.Ptr(to.Ptr(3)))",
+		},
+		Host: "package c14shadow\n\nimport \"example.com/conversion/to\"\n\ntype c14dest struct{}\n\nfunc (c14dest) Name() string { return \"\" }\n\nfunc c14use() {\n\tc14sink(to.Ptr(1))\n}\n\nfunc c14other(n int) int {\n\tn++\n\treturn n\n}\n",
 	},
 }
 
@@ -290,7 +305,11 @@ func c14DrawChange(rt *rapid.T, idx int) *c14Change {
 	default: // hand-written
 		sp := &c14Specials[rapid.IntRange(0, len(c14Specials)-1).Draw(rt, lbl+"special")]
 		ch = &c14Change{Label: sp.Label, Text: sp.Text, Special: sp}
-		ch.Hosts = []string{c14Plant(rt, c14SmallHost(rt, lbl+"host"), sp, lbl+"plant")}
+		if sp.Host != "" {
+			ch.Hosts = []string{c14Plant(rt, sp.Host, sp, lbl+"plant")}
+		} else {
+			ch.Hosts = []string{c14Plant(rt, c14SmallHost(rt, lbl+"host"), sp, lbl+"plant")}
+		}
 	}
 	if ch == nil { // mined from real code
 		for try := 0; try < 3 && ch == nil; try++ {
